@@ -151,6 +151,10 @@ class ShaderSpec:
         else:
             L += G + Fn + En
         text = "\n".join(L) + "\n"
+        if getattr(self, "no_final_newline", False):
+            text = text[:-1]
+            if getattr(self, "final_comment", False):
+                text += " // the file ends inside this comment"
         nl = getattr(self, "line_ending", "\n")
         if nl != "\n":
             text = text.replace("\n", nl)
@@ -356,7 +360,8 @@ def frag_targets(spec, e):
 S_SITES = ["top", "block", "if_accept", "if_reject", "else_if", "loop_body", "continuing",
            "for_body", "for_update", "while_body", "switch_case", "switch_default",
            "switch_multi", "if_false", "else_of_true", "if_const_expr_false", "while_false",
-           "else_if_chain_130", "nested_for_6"]
+           "else_if_chain_130", "nested_for_6", "else_then_if", "guard_else_break",
+           "else_block_then_loop"]
 E_SITES = ["let_init", "var_init", "if_cond", "while_cond", "break_if", "for_init", "for_cond",
            "switch_sel", "call_arg", "return_expr", "nested_expr"]
 
@@ -385,6 +390,14 @@ def scaffold(site, E, S_, n):
         # one source brace level, 130 IR nesting levels (each `else if` nests in the reject block)
         arms = " else ".join("if (acc < %d.5) { acc = acc + 1.0; }" % -(k + 2) for k in range(130))
         return "%s else { %s }" % (arms, S_)
+    if site == "else_then_if":
+        # the statement sits in an else block BEFORE an if that ends the block
+        return "if (acc < -1.0) { } else { %s if (acc > 5.0) { acc = acc + 1.0; } }" % S_
+    if site == "guard_else_break":
+        # hand-written loop guard: empty then-block, the else block works and then breaks
+        return "loop { if (acc < -3.0) { } else { %s break; } acc = acc - 1.0; }" % S_
+    if site == "else_block_then_loop":
+        return "if (acc < -1.0) { } else { { %s } loop { break; } if (acc > 9.0) { } }" % S_
     if site == "nested_for_6":
         open_ = "".join("for (var n%d_%d = 0; n%d_%d < 1; n%d_%d++) { " % (n, k, n, k, n, k)
                         for k in range(6))
